@@ -1515,3 +1515,130 @@ func c19r7(c *Ctx) {
 		ir.Fail("no positional access of an append-filled list in the Manager methods that look bodies up")
 	}
 }
+
+func init() {
+	register(&Rule{ID: "C13.R15", Prop: "C13", Floor: 1, Doc: "the rebase examines every input of a transaction: a loop that stores confirmed elements into the inputs' parents is left only when the inputs are exhausted or with an error", Run: c13r15})
+	register(&Rule{ID: "C16.R8", Prop: "C16", Floor: 1, Doc: "a formation set re-submitted after one of its parents was confirmed is rebased completely: no input of a transaction is skipped by leaving the promotion loop early (same check as C13.R15)", Run: c13r15})
+	register(&Rule{ID: "C16.R9", Prop: "C16", Floor: 1, Doc: "a failed bookkeeping write of the broadcast set does not fail the broadcast: nothing returns on the failure-only side of AddBroadcastedSet", Run: c16r9})
+	add := func(prop, text string) { Explanations[prop] += " " + text }
+	add("C13", "(R15) in the rebasing method every loop over a transaction's inputs whose body stores into an input's parent state element is left only through its own head or through a return: a `break` (or a jump past the loop) leaves the later inputs with unassigned leaf indices, and the set is rejected at the target.")
+	add("C16", "(R8) the check of C13.R15 — the host re-submits [parents…, formation] at the old basis after having recorded the contract; if the rebase skips an input behind an already confirmed one the re-submission fails and the RPC reports failure for a contract that exists; (R9) in the wallet's broadcast method no return lies on the side that only a failed SingleAddressStore.AddBroadcastedSet reaches: the set is already pooled (and, for the host, the contract recorded) at that point, so a bookkeeping error must not be reported as a failed broadcast.")
+}
+
+func c13r15(c *Ctx) {
+	f := rebaseFn(c) // as written: an expanded helper's returns inside a loop would look like jumps out of it
+	g := f.Graph()
+	c.VisitGraph(f)
+	n := 0
+	ir.Walk(f.Body, true, func(x ast.Node) {
+		var body *ast.BlockStmt
+		var loop ast.Stmt
+		switch l := x.(type) {
+		case *ast.RangeStmt:
+			body, loop = l.Body, l
+		case *ast.ForStmt:
+			body, loop = l.Body, l
+		default:
+			return
+		}
+		// stores into <input>.Parent.StateElement (or the whole parent) of an indexed input
+		stores := false
+		for _, w := range f.WritesIn(body, false) {
+			if !mentionsText(w.LHS, "Parent") {
+				continue
+			}
+			if _, isIx := ast.Unparen(rootIndexOf(w.LHS)).(*ast.IndexExpr); isIx {
+				stores = true
+			}
+		}
+		if !stores {
+			return
+		}
+		// only the innermost such loop
+		inner := false
+		ir.Walk(body, true, func(y ast.Node) {
+			switch y.(type) {
+			case *ast.RangeStmt, *ast.ForStmt:
+				inner = true
+			}
+		})
+		if inner {
+			return
+		}
+		n++
+		ob := c.Ob(f, "every-input-examined", loop.Pos())
+		bad := ""
+		ir.Walk(body, false, func(y ast.Node) {
+			if br, isBr := y.(*ast.BranchStmt); isBr && (br.Tok == token.BREAK || br.Tok == token.GOTO) {
+				// a break that belongs to a switch/select inside the body leaves only that statement
+				owner := ast.Node(loop)
+				ir.Walk(body, false, func(z ast.Node) {
+					switch s := z.(type) {
+					case *ast.SwitchStmt, *ast.TypeSwitchStmt, *ast.SelectStmt:
+						if containsNode(s, br) && br.Label == nil && br.Tok == token.BREAK {
+							owner = s
+						}
+					}
+				})
+				if owner == ast.Node(loop) {
+					bad = c.P.Pos(br.Pos())
+				}
+			}
+		})
+		_ = g
+		ob.Check(bad == "", nil, "the loop at %s, which gives the inputs of a transaction their confirmed parent elements, can be left at %s before every input was examined: inputs behind that point keep an unassigned leaf index, and the rebased set is rejected at the target (e.g. a funded transaction whose first input is confirmed and whose second is the change of a parent that has just been mined)", c.P.Pos(loop.Pos()), bad)
+	})
+	if n == 0 {
+		ir.Fail("no loop in the rebasing method stores into an input's parent element")
+	}
+}
+
+// rootIndexOf strips selectors down to the first index expression: a.b[i].c.d → a.b[i].
+func rootIndexOf(e ast.Expr) ast.Expr {
+	for {
+		switch t := ast.Unparen(e).(type) {
+		case *ast.SelectorExpr:
+			e = t.X
+		case *ast.StarExpr:
+			e = t.X
+		default:
+			return ast.Unparen(e)
+		}
+	}
+}
+
+func c16r9(c *Ctx) {
+	addSet := c.P.Method("wallet", "SingleAddressStore", "AddBroadcastedSet")
+	n := 0
+	for _, f := range walletMethods(c) {
+		for _, call := range f.CallsTo(false, addSet) {
+			n++
+			g := f.Graph()
+			c.VisitGraph(f)
+			ob := c.Ob(f, "bookkeeping-failure-not-reported", call.Pos())
+			chk := f.CheckOf(call.Expr)
+			if len(chk.Fail) == 0 {
+				ob.OK("the result of the bookkeeping write is not branched on")
+				continue
+			}
+			onFail := f.ReachableFromEdges(chk.Fail, nil)
+			onSucc := f.ReachableFromEdges(chk.Succ, nil)
+			bad := ""
+			for nd := range onFail {
+				if _, both := onSucc[nd]; both {
+					continue
+				}
+				if _, isRet := nd.AST.(*ast.ReturnStmt); isRet && g.Live(nd) {
+					bad = c.P.Pos(nd.Pos())
+				}
+			}
+			for _, nd := range chk.Propagated {
+				bad = c.P.Pos(nd.Pos())
+			}
+			ob.Check(bad == "", nil, "%s returns at %s because recording the set for re-broadcast failed: the set is in the pool by then (the formation / renewal handlers have already recorded the contract), so the RPC reports failure, the renter releases its inputs, and the host keeps a contract and a pooled transaction nobody expects", f.Name(), bad)
+		}
+	}
+	if n == 0 {
+		ir.Fail("no call of SingleAddressStore.AddBroadcastedSet found in the wallet")
+	}
+}
